@@ -530,6 +530,7 @@ fn predict(tab: &mut Vec<CodeS>, op: &IOp) {
         has_sudo: s.has_sudo,
         has_reply: s.has_reply,
         has_migrate: s.has_migrate,
+        wrapped: false,
     };
     match op {
         IOp::Store { creator, spec } => {
